@@ -40,210 +40,17 @@ def run(report, p):
     report.assume("hashlib / xxhash compute the standard algorithms")
     report.assume("base-58 arithmetic of Python integers; only constants, direction and encoder/decoder agreement are checked")
 
-    # ------------------------------------------------------------------ R1.1
+    # ------------------------------------------------------------------ R1.1 / R1.6 (props/readloops.py)
     r1 = report.rule(
         "R1.1",
-        "read-loop completeness: the file is opened in binary read mode; every chunk returned by read() reaches update() of every hasher before the next read or the function's exit, "
-        "unless it is the empty chunk that ends the loop; the loop has no other exit; read size is a positive constant; no seek",
+        "read-loop completeness: the file is opened in binary read mode; every chunk returned by read() reaches update() of every hasher (directly, or through a chunk generator whose "
+        "every consumer feeds every hasher) before the next read or the function's exit, unless it is the empty chunk that ends the loop; the loop has no other exit; read size is a positive constant; no seek",
         2,
     )
-    loops = read_loop_funcs(p)
-    for f, reads in loops:
-        g = cfg_of(f)
-        r1.instance(f, reads[0], f"{f.qual}: {len(reads)} read site(s)")
-        # open mode
-        opens = [c for c, tg in p.calls[f.qual] if "builtin:open" in tg]
-        for oc in opens:
-            m = open_mode(p, oc, f)
-            r1.check(m in ("rb", "br"), f, oc, f"file opened with mode {m!r}: text mode / write mode does not deliver the exact bytes", construct=f"open mode {m!r}")
-        handle = None
-        for oc in opens:
-            par = parent(oc)
-            if isinstance(par, ast.withitem) and par.optional_vars is not None:
-                handle = norm(par.optional_vars)
-            elif isinstance(par, ast.Assign):
-                handle = norm(par.targets[0])
-        chunk_vars = set()
-        read_nodes = []
-        for rc in reads:
-            st = _stmt(rc)
-            size = rc.args[0] if rc.args else None
-            if isinstance(rc.func, ast.Attribute) and rc.func.attr == "readinto":
-                size = None
-            if size is not None:
-                sv = p.fold(size, f)
-                r1.check(isinstance(sv, int) and not isinstance(sv, bool) and sv > 0, f, rc, f"read size `{norm(size)}` is not a positive constant (folded: {sv!r})", construct=f"read size {norm(size)}")
-            if isinstance(st, ast.Assign) and len(st.targets) == 1 and isinstance(st.targets[0], ast.Name) and st.value is rc:
-                chunk_vars.add(st.targets[0].id)
-                read_nodes.append(g.node_for(rc))
-            elif isinstance(parent(rc), ast.NamedExpr):
-                chunk_vars.add(parent(rc).target.id)
-                read_nodes.append(g.node_for(rc))
-            else:
-                raise AnalysisError(f"{f.loc(rc)}: read() result is not bound to a chunk variable (idiom outside: priming read / walrus / read-in-loop)")
-        if len(chunk_vars) != 1:
-            raise AnalysisError(f"{f.qual}: more than one chunk variable {chunk_vars}")
-        chunk = next(iter(chunk_vars))
-        # readinto(buffer): the variable is the byte COUNT; the data is buffer[:count]
-        buffers = {norm(rc.args[0]) for rc in reads if isinstance(rc.func, ast.Attribute) and rc.func.attr == "readinto" and rc.args}
-        if buffers and any(isinstance(rc.func, ast.Attribute) and rc.func.attr == "read" for rc in reads):
-            raise AnalysisError(f"{f.qual}: read() and readinto() mixed in one loop (unrecognised idiom)")
-        if len(buffers) > 1:
-            raise AnalysisError(f"{f.qual}: several readinto buffers")
-        buffer = next(iter(buffers)) if buffers else None
-        for c, tg in p.calls[f.qual]:
-            if isinstance(c.func, ast.Attribute) and c.func.attr in ("seek", "truncate", "readline", "readlines") and norm(c.func.value) == handle:
-                r1.check(False, f, c, f"the file position / content is manipulated with .{c.func.attr}(): not every byte is hashed exactly once")
-        # update nodes: hasher.update(chunk) directly, or a for-loop whose body is exactly one update on each element of a collection
-        upd_single, upd_loops = [], []
-        for c, tg in p.calls[f.qual]:
-            if isinstance(c.func, ast.Attribute) and c.func.attr == "update" and len(c.args) == 1 and buffer is not None:
-                a = c.args[0]
-                mentions = any(isinstance(x, ast.Name) and x.id == buffer for x in ast.walk(a))
-                if not mentions:
-                    continue
-                base = a.value if isinstance(a, ast.Subscript) else None
-                if isinstance(base, ast.Call) and norm(base.func) == "memoryview" and base.args:
-                    base = base.args[0]
-                good = isinstance(a, ast.Subscript) and isinstance(a.slice, ast.Slice) and a.slice.lower is None and a.slice.step is None and a.slice.upper is not None and norm(a.slice.upper) == chunk and base is not None and norm(base) == buffer
-                if not good:
-                    r1.check(False, f, c, f"update() is fed `{norm(a)}`: with readinto() only the first `{chunk}` bytes of the reused buffer are file content, the rest is the stale tail of an earlier chunk (files whose size is not a multiple of the buffer get a wrong digest)", construct=f"update({norm(a)}) after readinto")
-                    continue
-                lp = parent(_stmt(c))
-                if isinstance(lp, ast.For) and len(lp.body) == 1 and _stmt(c) is lp.body[0] and not lp.orelse:
-                    upd_loops.append((c, lp))
-                else:
-                    upd_single.append(c)
-                continue
-            if isinstance(c.func, ast.Attribute) and c.func.attr == "update" and len(c.args) == 1:
-                if not (isinstance(c.args[0], ast.Name) and c.args[0].id == chunk):
-                    if any(isinstance(x, ast.Name) and x.id == chunk for x in ast.walk(c.args[0])):
-                        r1.check(False, f, c, f"update() is fed `{norm(c.args[0])}` instead of the chunk as read", construct=f"update({norm(c.args[0])})")
-                    continue
-                lp = parent(_stmt(c))
-                if isinstance(lp, ast.For) and len(lp.body) == 1 and _stmt(c) is lp.body[0] and not lp.orelse:
-                    upd_loops.append((c, lp))
-                elif isinstance(lp, ast.For) and any(isinstance(x, ast.stmt) and x is not _stmt(c) for x in lp.body) and _loop_over_hashers(lp, c):
-                    r1.check(False, f, lp, "the loop that feeds the chunk to the hashers does more than update each hasher (a hasher can be skipped)", construct="conditional update loop")
-                else:
-                    upd_single.append(c)
-        hashers = set()
-        avoid = set()
-        for c in upd_single:
-            hashers.add(norm(c.func.value))
-            avoid.add(g.node_for(c).id)
-        for c, lp in upd_loops:
-            coll = norm(lp.iter)
-            key = norm(lp.target)
-            recv = norm(c.func.value)
-            okl = recv in (key, f"{coll}[{key}]") or (coll.endswith(".values()") and recv == key)
-            r1.check(okl and is_plain_iter(p, lp.iter), f, lp, "the update loop does not feed every hasher of the collection", construct=f"for {key} in {coll}: {recv}.update")
-            hashers.add(coll.replace(".values()", ""))
-            avoid.add(g.by_ast[id(lp)].id)
-        r1.check(bool(avoid), f, reads[0], "no hasher is fed with the chunks that are read", construct="no update")
-        # EOF edges: (test `chunk`, F) and (test `not chunk`, T) are the legitimate loop exits
-        def follow(n, m, l):
-            if n.kind == "test":
-                t = norm(n.ast)
-                if (t == chunk or t == f"{chunk} := {handle}.read({norm(reads[0].args[0]) if reads[0].args else ''})" or (isinstance(n.ast, ast.NamedExpr))) and l == "F":
-                    return False
-                if t in (f"len({chunk}) > 0", f"{chunk} != b''", f"len({chunk}) != 0") and l == "F":
-                    return False
-                if t in (f"len({chunk}) == 0", f"{chunk} == b''") and l == "T":
-                    return False
-            return True
-        targets = {n.id for n in read_nodes} | {g.exit.id}
-        for rn in read_nodes:
-            # search from the successors of the read node, not crossing update nodes or EOF edges
-            seen, work, hit = set(), [m for m, l in rn.succ if follow(rn, m, l)], None
-            prev = {}
-            while work and hit is None:
-                n = work.pop()
-                if n.id in seen or n.id in avoid:
-                    continue
-                seen.add(n.id)
-                if n.id in targets:
-                    hit = n
-                    break
-                for m, l in n.succ:
-                    if follow(n, m, l) and m.id not in seen:
-                        prev.setdefault(m.id, n.id)
-                        work.append(m)
-            if hit is not None:
-                trail = [hit]
-                x = hit.id
-                while x in prev:
-                    x = prev[x]
-                    trail.append(g.nodes[x])
-                trail.append(rn)
-                what = "the end of the function" if hit is g.exit else "the next read()"
-                r1.check(False, f, rn.ast, f"a chunk that was read can reach {what} without being hashed by every hasher (file content beyond it does not influence the digest)", witness=g.fmt_path(list(reversed(trail))), construct=f"chunk from {norm(rn.ast)[:40]} may skip update -> {what}")
-            else:
-                r1.check(True, f, rn.ast, "")
-        # the function can only finish after read() returned the empty chunk: without the EOF edges the exit is unreachable
-        for rn in read_nodes[:1]:
-            seen, work, prev = set(), [m for m, l in rn.succ if follow(rn, m, l)], {}
-            hit = None
-            while work and hit is None:
-                n = work.pop()
-                if n.id in seen:
-                    continue
-                seen.add(n.id)
-                if n is g.exit:
-                    hit = n
-                    break
-                for m, l in n.succ:
-                    if follow(n, m, l) and m.id not in seen:
-                        prev.setdefault(m.id, n.id)
-                        work.append(m)
-            trail = []
-            if hit is not None:
-                x = hit.id
-                trail = [hit]
-                while x in prev:
-                    x = prev[x]
-                    trail.append(g.nodes[x])
-                trail.append(rn)
-            r1.check(hit is None, f, rn.ast, "the function can return a digest without read() ever having returned the empty chunk: bytes after the last chunk read are not hashed", witness=g.fmt_path(list(reversed(trail))) if trail else None, construct="exit reachable without EOF")
-        # the digest(s) returned come from the hashers that were updated
-        rets = [n for n in walk_no_nested(f.node) if isinstance(n, ast.Return)]
-        for rt in rets:
-            ok = False
-            v = rt.value
-            if isinstance(v, ast.Call) and isinstance(v.func, ast.Attribute) and v.func.attr == "string_digest":
-                ok = norm(v.func.value) in hashers
-            elif isinstance(v, ast.Name):
-                # dict filled from the same collection with the same key
-                fills = [n for n in walk_no_nested(f.node) if isinstance(n, ast.Assign) and any(isinstance(t, ast.Subscript) and norm(t.value) == v.id for t in n.targets)]
-                ok = bool(fills)
-                for fl in fills:
-                    t = fl.targets[0]
-                    lp = parent(fl)
-                    val = fl.value
-                    ok = ok and isinstance(lp, ast.For) and is_plain_iter(p, lp.iter) and norm(lp.iter).replace(".keys()", "") in hashers and isinstance(val, ast.Call) and isinstance(val.func, ast.Attribute) and val.func.attr == "string_digest" and norm(val.func.value) == f"{norm(lp.iter).replace('.keys()', '')}[{norm(t.slice)}]" and norm(t.slice) == norm(lp.target)
-            r1.check(ok, f, rt, "the digest returned is not taken from the hasher(s) that were fed with the file's bytes (or keys are crossed)", construct=f"return {norm(v)[:60]}")
+    r6 = report.rule("R1.6", "every hasher is built fresh: cls() for the single-format path, one factory call per requested format stored under that format for the read-once multi-format path", 2)
+    from .readloops import analyse
 
-    # ------------------------------------------------------------------ R1.6 multi-format construction
-    r6 = report.rule("R1.6", "the read-once multi-format path builds one hasher per requested format, keyed by that format, through the same factory as the single-format path", 1)
-    fac = p.funcs.get("ascmhl.hasher.new_hasher_for_hash_type")
-    if fac is None:
-        raise AnalysisError("hasher factory not found")
-    for f, reads in loops:
-        fills = [n for n in walk_no_nested(f.node) if isinstance(n, ast.Assign) and isinstance(n.value, ast.Call) and fac.qual in p.resolve_call(n.value, f)]
-        news = [n for n in walk_no_nested(f.node) if isinstance(n, ast.Assign) and isinstance(n.value, ast.Call) and norm(n.value.func) == "cls"]
-        if not fills and not news:
-            r6.check(False, f, f.node, "hashers are not created by the factory / cls()", construct="hasher construction")
-        for n in fills:
-            lp = parent(n)
-            r6.instance(f, n, norm(n)[:80])
-            key_ok = isinstance(lp, ast.For) and is_plain_iter(p, lp.iter) and isinstance(lp.iter, ast.Name) and lp.iter.id in f.params and norm(n.value.args[0]) == norm(lp.target)
-            store = [s for s in lp.body if isinstance(s, ast.Assign) and any(isinstance(t, ast.Subscript) for t in s.targets)] if isinstance(lp, ast.For) else []
-            st_ok = any(norm(s.targets[0].slice) == norm(lp.target) for s in store) if store else (isinstance(n.targets[0], ast.Subscript) and norm(n.targets[0].slice) == norm(lp.target))
-            r6.check(key_ok and st_ok, f, n, "hashers are not built for every requested format / stored under their own format")
-    # factory: lookup by member name, instantiate the member's class
-    r6.instance(fac, fac.node, "factory")
-    ft = norm(fac.node)
-    r6.check("HashType[hash_format]" in ft and ".value()" in ft, fac, fac.node, "the factory does not look the format up by name in the format table and instantiate its class", construct="factory lookup")
+    loops, owners = analyse(p, pr, r1, r6)
 
     # ------------------------------------------------------------------ R1.2
     r2 = report.rule("R1.2", "format table: each supported format name resolves to the standard algorithm (md5, sha1, xxh32, xxh64, xxh3 -> XXH3-64, xxh128 -> XXH3-128, c4 -> SHA-512); every CLI format has a hasher", 7)
@@ -308,34 +115,68 @@ def run(report, p):
                 cands = [v for v in (rv, lv) if isinstance(v, int)]
                 r4.check(58 in cands, f, n, f"radix constant in `{norm(n)}` is not 58", construct=f"radix in {norm(n)}")
             if isinstance(n, ast.Call) and norm(n.func) == "divmod":
-                raise AnalysisError(f"{f.loc(n)}: codec rewritten with divmod (unrecognised style)")
+                ok = len(n.args) == 2 and p.fold(n.args[1], f) == 58
+                r4.check(ok, f, n, f"radix in `{norm(n)}` is not 58", construct=f"radix in {norm(n)}")
+                st = _stmt(n)
+                # quotient must replace the running value, remainder is the digit
+                okq = isinstance(st, ast.Assign) and isinstance(st.targets[0], ast.Tuple) and len(st.targets[0].elts) == 2 and norm(st.targets[0].elts[0]) == norm(n.args[0])
+                r4.check(okq, f, st, "divmod result is not unpacked as (running value, digit)", construct="divmod unpacking")
     et = norm(enc.node)
-    r4.check("int(sha512_string, 16)" in et.replace(norm(_first_assign_name(enc)), "sha512_string") or "int(" in et and ", 16)" in et, enc, enc.node, "the digest is not parsed as a base-16 integer", construct="int(hexdigest, 16)")
+    r4.check("int(" in et and ", 16)" in et, enc, enc.node, "the digest is not parsed as a base-16 integer", construct="int(hexdigest, 16)")
     r4.check("self.hasher.hexdigest()" in et, enc, enc.node, "c4 is not derived from the full SHA-512 hexdigest", construct="c4 source digest")
-    # prepend digits
+    # digits are prepended
     pre = [n for n in walk_no_nested(enc.node) if isinstance(n, ast.Assign) and isinstance(n.value, ast.BinOp) and isinstance(n.value.op, ast.Add) and isinstance(n.value.left, ast.Subscript) and norm(n.value.left.value).endswith(alpha_name)]
-    r4.check(len(pre) == 1 and norm(pre[0].value.right) == norm(pre[0].targets[0]), enc, pre[0] if pre else enc.node, "base-58 digits are not prepended (most significant digit first)", construct="digit order")
+    app = [n for n in walk_no_nested(enc.node) if isinstance(n, (ast.Assign, ast.AugAssign)) and isinstance(getattr(n, "value", None), (ast.BinOp, ast.Subscript)) and ((isinstance(n, ast.AugAssign) and isinstance(n.value, ast.Subscript) and norm(n.value.value).endswith(alpha_name)) or (isinstance(n, ast.Assign) and isinstance(n.value, ast.BinOp) and isinstance(n.value.right, ast.Subscript) and norm(n.value.right.value).endswith(alpha_name)))]
+    if not pre and not app:
+        raise AnalysisError(f"{enc.qual}: base-58 digit accumulation not recognised")
+    r4.check(len(pre) == 1 and not app and norm(pre[0].value.right) == norm(pre[0].targets[0]), enc, (pre + app)[0], "base-58 digits are not prepended (most significant digit first)", construct="digit order")
+    # the loop runs until the value is exhausted
+    ewl = [n for n in walk_no_nested(enc.node) if isinstance(n, ast.While)]
+    if len(ewl) != 1:
+        raise AnalysisError(f"{enc.qual}: encoder loop not recognised")
+    wt = norm(ewl[0].test).replace(" ", "")
+    valname = wt.split("!=")[0].split(">")[0]
+    r4.check(wt in (f"{valname}!=0", f"{valname}>0", valname), enc, ewl[0], f"the encoder loop `{norm(ewl[0].test)}` does not run until the value is used up", construct="encoder loop condition")
     pads = [n for n in walk_no_nested(enc.node) if isinstance(n, ast.Call) and isinstance(n.func, ast.Attribute) and n.func.attr in ("rjust", "ljust", "zfill", "center")]
-    okp = len(pads) == 1 and pads[0].func.attr == "rjust" and len(pads[0].args) == 2
+    if len(pads) != 1:
+        raise AnalysisError(f"{enc.qual}: padding step not recognised")
+    okp = pads[0].func.attr == "rjust" and len(pads[0].args) == 2
+    width = fill = prefix = None
     if okp:
         width, fill = p.fold(pads[0].args[0], enc), p.fold(pads[0].args[1], enc)
         par = parent(pads[0])
         prefix = p.fold(par.left, enc) if isinstance(par, ast.BinOp) and isinstance(par.op, ast.Add) else None
         okp = prefix == "c4" and isinstance(width, int) and width + len(prefix) == 90 and fill == BASE58[0]
-        r4.check(okp, enc, pads[0], f"c4 text form is not 'c4' + 88 digits left-padded with '1' (prefix {prefix!r}, width {width}, fill {fill!r})", construct=f"padding {norm(pads[0])}")
-    else:
-        r4.check(False, enc, pads[0] if pads else enc.node, "c4 digits are not left-padded with rjust(width, zero digit)", construct=f"padding {norm(pads[0]) if pads else 'none'}")
+    r4.check(okp, enc, pads[0], f"c4 text form is not 'c4' + 88 digits left-padded with '1' ({norm(pads[0])}; prefix {prefix!r}, width {width}, fill {fill!r})", construct=f"padding {norm(pads[0])}")
+    # decoder
     dt = norm(dec.node)
-    starts = [n for n in walk_no_nested(dec.node) if isinstance(n, ast.Assign) and isinstance(n.targets[0], ast.Name) and isinstance(n.value, ast.Constant) and isinstance(n.value.value, int)]
-    idxvar = next((n.targets[0].id for n in starts if n.value.value == 2), None)
     wl = [n for n in walk_no_nested(dec.node) if isinstance(n, ast.While)]
-    okd = idxvar is not None and len(wl) == 1 and isinstance(wl[0].test, ast.Compare) and norm(wl[0].test.left) == idxvar and isinstance(wl[0].test.ops[0], ast.Lt) and p.fold(wl[0].test.comparators[0], dec) == 90
-    r4.check(okd, dec, wl[0] if wl else dec.node, "the decoder does not read the digits at positions [2, 90)", construct="decoder bounds")
-    acc = [n for n in walk_no_nested(dec.node) if isinstance(n, ast.Assign) and isinstance(n.value, ast.BinOp) and isinstance(n.value.op, ast.Add) and isinstance(n.value.left, ast.BinOp) and isinstance(n.value.left.op, ast.Mult)]
-    r4.check(len(acc) == 1 and norm(acc[0].value.left.left) == norm(acc[0].targets[0]), dec, acc[0] if acc else dec.node, "the decoder does not accumulate result * 58 + digit left to right", construct="decoder accumulation")
-    r4.check(f"{alpha_name}.index(" in dt, dec, dec.node, "the decoder does not look digits up in the same alphabet", construct="decoder alphabet")
+    fl = [n for n in walk_no_nested(dec.node) if isinstance(n, ast.For)]
+    if len(wl) + len(fl) != 1:
+        raise AnalysisError(f"{dec.qual}: decoder loop not recognised")
+    if wl:
+        starts = [n for n in walk_no_nested(dec.node) if isinstance(n, ast.Assign) and isinstance(n.targets[0], ast.Name) and isinstance(n.value, ast.Constant) and isinstance(n.value.value, int) and not _inside_node(n, wl[0])]
+        t = wl[0].test
+        idxvar = norm(t.left) if isinstance(t, ast.Compare) else None
+        start = next((n.value.value for n in starts if n.targets[0].id == idxvar), None)
+        okd = idxvar is not None and isinstance(t.ops[0], ast.Lt) and p.fold(t.comparators[0], dec) == 90 and start == 2
+        incs = [n for n in ast.walk(wl[0]) if (isinstance(n, ast.AugAssign) and norm(n.target) == idxvar and isinstance(n.op, ast.Add) and p.fold(n.value, dec) == 1) or (isinstance(n, ast.Assign) and norm(n.targets[0]) == idxvar and norm(n.value).replace(" ", "") in (f"{idxvar}+1", f"1+{idxvar}"))]
+        okd = okd and len(incs) == 1
+        r4.check(okd, dec, wl[0], "the decoder does not read the digits at positions [2, 90) one by one", construct="decoder bounds")
+        loopnode = wl[0]
+    else:
+        it = fl[0].iter
+        okd = isinstance(it, ast.Call) and norm(it.func) == "range" and len(it.args) in (2, 3) and p.fold(it.args[0], dec) == 2 and p.fold(it.args[1], dec) == 90 and (len(it.args) == 2 or p.fold(it.args[2], dec) == 1)
+        r4.check(okd, dec, fl[0], "the decoder does not read the digits at positions [2, 90) one by one", construct="decoder bounds")
+        idxvar = norm(fl[0].target)
+        loopnode = fl[0]
+    acc = [n for n in ast.walk(loopnode) if isinstance(n, ast.Assign) and isinstance(n.value, ast.BinOp) and isinstance(n.value.op, ast.Add) and isinstance(n.value.left, ast.BinOp) and isinstance(n.value.left.op, ast.Mult)]
+    if len(acc) != 1:
+        raise AnalysisError(f"{dec.qual}: decoder accumulation not recognised")
+    r4.check(norm(acc[0].value.left.left) == norm(acc[0].targets[0]), dec, acc[0], "the decoder does not accumulate result * 58 + digit left to right", construct="decoder accumulation")
+    r4.check(f"{alpha_name}.index(" in dt and f"[{idxvar}]" in dt, dec, dec.node, "the decoder does not look the digit at the running position up in the same alphabet", construct="decoder alphabet")
     tb = [n for n in walk_no_nested(dec.node) if isinstance(n, ast.Call) and isinstance(n.func, ast.Attribute) and n.func.attr == "to_bytes"]
-    okb = len(tb) == 1 and p.fold(tb[0].args[0], dec) == 64 and any(k.arg == "byteorder" and p.fold(k.value, dec) == "big" for k in tb[0].keywords) or (len(tb) == 1 and len(tb[0].args) == 2 and p.fold(tb[0].args[1], dec) == "big" and p.fold(tb[0].args[0], dec) == 64)
+    okb = len(tb) == 1 and len(tb[0].args) >= 1 and p.fold(tb[0].args[0], dec) == 64 and (any(k.arg == "byteorder" and p.fold(k.value, dec) == "big" for k in tb[0].keywords) or (len(tb[0].args) == 2 and p.fold(tb[0].args[1], dec) == "big"))
     r4.check(okb, dec, tb[0] if tb else dec.node, "the decoded value is not rendered as 64 bytes big-endian", construct="decoder to_bytes")
 
     # ------------------------------------------------------------------ R1.5
@@ -363,6 +204,15 @@ def run(report, p):
         r5.check(any(q in p.reachable([f.qual]) for q in loop_q), f, f.node, f"hasher.{ep} does not reach a read loop", construct=f"{ep} routing")
 
     report.not_decided += ["that hashlib/xxhash implement the standard algorithms", "the base-58 conversion for all 512-bit values (only its constants, direction and encoder/decoder agreement)", "digests of concrete files"]
+
+
+def _inside_node(n, container):
+    x = n
+    while x is not None:
+        if x is container:
+            return True
+        x = parent(x)
+    return False
 
 
 def _loop_over_hashers(lp, c):
